@@ -105,7 +105,26 @@ def ref_tokens(oid, formats):
             out.append('xdb-n')
         if oid % 5 == 1:
             out.append('xdb-w')
+        if oid % 4 == 1:
+            out.append('xdb-mm')      # multi-database reference whose class cannot be imported when conflicts are resolved
     return out
+
+
+def _transient_class():
+    """a class that is importable while the record is written and gone afterwards"""
+    import sys
+    import types
+    mod = sys.modules.get('zv_gone_mod')
+    if mod is None:
+        mod = types.ModuleType('zv_gone_mod')
+        sys.modules['zv_gone_mod'] = mod
+        mod.Gone = type('Gone', (object,), {'__module__': 'zv_gone_mod'})
+    return mod.Gone
+
+
+def _forget_transient():
+    import sys
+    sys.modules.pop('zv_gone_mod', None)
 
 
 def _pid_of(ob):
@@ -117,6 +136,8 @@ def _pid_of(ob):
             return p64(ob.oid)
         if ob.kind == 'xdb-m':
             return ['m', ('other', p64(ob.oid), model_classes.VObj)]
+        if ob.kind == 'xdb-mm':
+            return ['m', ('other', p64(ob.oid), _transient_class())]
         if ob.kind == 'xdb-n':
             return ['n', ('other', p64(ob.oid))]
         if ob.kind == 'xdb-w':
@@ -142,6 +163,7 @@ def make_record(kind, v, refs, pad=0, formats=False):
     if pad:
         state['pad'] = 'x' * pad
     p.dump(state)
+    _forget_transient()
     return f.getvalue()
 
 
@@ -161,6 +183,7 @@ def _record_with_newargs(v, refs, pad, formats):
     if pad:
         state['pad'] = 'x' * pad
     p.dump(state)
+    _forget_transient()
     return f.getvalue()
 
 
@@ -179,7 +202,7 @@ def ref_oid(pid):
         if tag == 'n':
             return u64(_b(args[1])), 'xdb-n'
         if tag == 'm':
-            return u64(_b(args[1])), 'xdb-m'
+            return u64(_b(args[1])), ('xdb-mm' if tuple(args[2])[:1] == ('zv_gone_mod',) else 'xdb-m')
     raise ValueError('unknown reference format %r' % (pid,))
 
 
